@@ -361,7 +361,7 @@ pub fn run(tier: Tier, seed: u64, findings: &Findings) -> i32 {
     let check = C01 { cfg: gen::wxml::WxmlCfg::new(2, 3), locations: false, prop: "C01" };
     let mut report = engine::Report::default();
     report.merge(super::run_regress(&check, &cfg, findings));
-    let cases = tier.pick(40_000, 2_000_000);
+    let cases = tier.pick(100_000, 10_000_000);
     report.merge(engine::run_generated(&check, &cfg, cases, 16, 16, findings, 0));
     engine::finish(
         Finish {
